@@ -149,6 +149,9 @@ pub fn run(opts: &Opts, pi: &PropInfo) -> i32 {
         if rj["env"]["probe"].is_string() {
             vec![]
         } else {
+            if rj["variant"].as_str() == Some("-nommap") {
+                build::set_variant("-nommap");
+            }
             vec![rj["universe"].as_str().unwrap_or("fixed").to_string()]
         }
     } else {
@@ -194,6 +197,7 @@ pub fn run(opts: &Opts, pi: &PropInfo) -> i32 {
                             if let Some(fs) = r["failures"].as_array_mut() {
                                 for f in fs.iter_mut() {
                                     f["universe"] = json!(label);
+                                    f["variant"] = json!("-nommap");
                                     f["message"] = json!(format!("[epserde built without the mmap feature] {}", f["message"].as_str().unwrap_or("")));
                                 }
                             }
